@@ -13,7 +13,7 @@ for l in open(HERE + "/seeded/RESULTS.jsonl"):
     if "suite_with_patch" in r:
         suite[r["seed"]] = r["suite_with_patch"]["summary"].split(" in ")[0]
 rows = []
-for d in sorted(glob.glob(HERE + "/seeded/[CFGHI]*_*")):
+for d in sorted(glob.glob(HERE + "/seeded/[CFGHIJ]*_*")):
     sid = os.path.basename(d)
     m = json.load(open(d + "/meta.json"))
     p = m["property"]
@@ -21,7 +21,8 @@ for d in sorted(glob.glob(HERE + "/seeded/[CFGHI]*_*")):
     clause = (v.get("first") or [""])[0]
     mon = clause.split("monitor=")[1].split(" ")[0] if "monitor=" in clause else ""
     cl = clause.split("clause=")[1].split(" ")[0] if "clause=" in clause else ""
-    rows.append(f"| {sid} | {m['summary'][:150].replace('|', '/')} | {m['needs'][:110].replace('|', '/')} | {first.get((sid, p), '?')} | {v.get('verdict', '?')} ({mon}.{cl}) | {suite.get(sid, '')} |")
+    now = f"{v.get('verdict', '?')} ({mon}.{cl})" if not m.get("disposition") else "NOT CAUGHT BY DECISION: " + m["disposition"][:160].replace("|", "/")
+    rows.append(f"| {sid} | {m['summary'][:150].replace('|', '/')} | {m['needs'][:110].replace('|', '/')} | {first.get((sid, p), '?')} | {now} | {suite.get(sid, '')} |")
 out = ["| seed | change | needs | first run | now (deciding monitor.clause) | repository suite with the patch (own run) |", "|---|---|---|---|---|---|"] + rows
 open(HERE + "/seeded/SUMMARY.md", "w").write("\n".join(out) + "\n")
 print(len(rows), "seeds;", sum(1 for r in rows if "caught" in r.split("|")[5]), "caught now;", sum(1 for r in rows if "MISSED" in r.split("|")[4]), "missed on first run")
